@@ -56,3 +56,55 @@ pub fn find(id: &str) -> Option<&'static Prop> {
 pub fn input_family(v: &Value) -> Option<crate::fam::Family> {
 	crate::fam::Family::parse(v["fam"].as_str()?)
 }
+
+/// Sub-domain for the depth-2 call-history pass of main.rs: (check, replay input) of cases whose
+/// subject is a pure function of its input. References over few tokens with authorities and
+/// segments of several lengths, so that offsets remembered from one text fall on delimiters of
+/// another.
+pub fn history_domain(id: &str, ctx: &Ctx) -> Vec<(String, Value)> {
+	use crate::engine::bytes_json;
+	use crate::fam::{Family, Kind};
+	use crate::model::{domains, Refs};
+	use serde_json::json;
+	if !matches!(id, "C02" | "C03" | "C12" | "C20") || domains::wide() != 0 {
+		return vec![];
+	}
+	let refs = Refs::new(&ctx.root);
+	let o = |x: &[Option<&str>]| -> Vec<Option<Vec<u8>>> { x.iter().map(|s| s.map(domains::b)).collect() };
+	let pv = |x: &[&str]| -> Vec<Vec<u8>> { x.iter().map(|s| domains::b(s)).collect() };
+	let paths = pv(&["", "/", "/a", "/a/bb", "//a", "/bb/a", "a/bb", "bb"]);
+	let texts: Vec<Vec<u8>> = domains::references(&o(&[None, Some("s")]), &o(&[None, Some(""), Some("h"), Some("hhh")]), &paths, &o(&[None, Some("q/r")]), &o(&[None, Some("f")]))
+		.into_iter()
+		.map(|(t, _)| t)
+		.filter(|t| {
+			let p = crate::model::syntax::split(t);
+			p.query.is_some() == p.fragment.is_some()
+		})
+		.collect();
+	let mut out = Vec::new();
+	for f in Family::active() {
+		for t in &texts {
+			if !refs.valid(f, Kind::RiRef, t) {
+				continue;
+			}
+			match id {
+				"C02" => out.push(("decompose".to_string(), json!({"fam": f.name(), "text": bytes_json(t)}))),
+				"C20" => out.push(("".to_string(), json!({"fam": f.name(), "text": bytes_json(t)}))),
+				"C03" => {
+					if crate::model::syntax::split(t).authority.is_some() {
+						out.push(("authority".to_string(), json!({"fam": f.name(), "text": bytes_json(t), "embedded": true})));
+					}
+				}
+				_ => {}
+			}
+		}
+		if id == "C12" {
+			for p in &paths {
+				if refs.valid(f, Kind::Path, p) {
+					out.push(("".to_string(), json!({"fam": f.name(), "path": bytes_json(p)})));
+				}
+			}
+		}
+	}
+	out
+}
